@@ -468,3 +468,43 @@ def differential(ctx, reqs, channel, shrink=True, max_report=5, oracle=None, kee
                       witness={"request": small, "implementation": a2}, found_input=True, kind="oracle")
         ctx.oblige(f"oracle:{channel} ({len(reqs)} requests)", not obad)
     return impl, model
+
+
+def load_pinned_T():
+    """translator outputs at the pinned commit (+ the fix: commits): fallback *generator* tables when a translator
+    no longer accepts the working tree, so that the search for a failing input can still run on the implementation."""
+    T = json.load(open(os.path.join(VERIF, "reference", "pinned-T.json")))
+
+    def tup(o):
+        if isinstance(o, list):
+            return tuple(tup(x) for x in o)
+        return o
+    hdr = T["header"]
+    for e in hdr["enums"]:
+        e["decl"] = [tuple(x) for x in e["decl"]]
+        e["aliases"] = [tuple(x) for x in e["aliases"]]
+    for m in hdr["masks"]:
+        m["consts"] = [tuple(x) for x in m["consts"]]
+    hdr["enum_by_name"] = {e["name"]: e for e in hdr["enums"]}
+    T["core"] = (T["core"][0], [dict(r, ops=[tuple(o) for o in r["ops"]]) for r in T["core"][1]])
+    T["operand_enum"] = [tuple(x) for x in T["operand_enum"]]
+    pk, pf = T["parse_operand"]
+    T["parse_operand"] = ({k: tup(v) for k, v in pk.items()}, {k: tup(v) for k, v in pf.items()})
+    return T
+
+
+def oracle_search(ctx, reqs, oracle, channel, max_report=3, keep=1):
+    """The proof side or the tie is broken: run the implementation alone and look for an input on which the
+    property's oracle fails. Returns True if one was found (and reported)."""
+    impl = run_impl(ctx, reqs)
+    ctx.evaluations += len(reqs)
+    found = 0
+    for r, a in zip(reqs, impl):
+        msg = oracle(r, a)
+        if msg:
+            ctx.issue(f"oracle:{channel}:{r[:100]}", "the property fails on the implementation: " + msg,
+                      witness={"request": r, "implementation": a}, found_input=True, kind="oracle")
+            found += 1
+            if found >= max_report:
+                break
+    return found > 0
